@@ -2,11 +2,49 @@ ENGINES = [
     {"name": "E1 choice-point explorer", "path": "src/verifx/h/explore.go", "serves_properties": ["C01", "C08", "C15", "C16", "C17", "C18"], "kind_free_text": "stateless deviation-bounded enumeration of choice vectors over generators written against Choose(n,label); replays a prefix and fails loudly on divergence"},
     {"name": "bounded-exhaustive product enumerators", "path": "src/inj/stack/agg_test.go", "serves_properties": ["C04", "C05", "C12", "C13"], "kind_free_text": "all multisets/permutations/triples over a finite universe, against reference models written from the property text"},
     {"name": "E2 explicit-state product search", "path": "src/inj/stack/bfs_test.go", "serves_properties": ["C02", "C03", "C07"], "kind_free_text": "BFS over (real scanningState, reference automaton R-line) with replay-from-root successors, canonical fine state key, trace validation through the public ScanSnapshot resume loop"},
+    {"name": "scripted environment E3", "path": "src/inj/stack/c09_test.go", "serves_properties": ["C09", "C10", "C11"], "kind_free_text": "scripted io.Reader answering every Read from an enumerated schedule (chunk sizes, zero-length reads, EOF/err with or after data), observation hook at every Read, recording writer; builds with the reader buffer shrunk by AST rewrite"},
+    {"name": "map-order instrumentation", "path": "tools/instrument/main.go", "serves_properties": ["C06", "C18"], "kind_free_text": "go/types based rewrite of every range-over-map into verifx/mc.Keys (canonical content order + explorer permutation), derived from the current tree at check time"},
     {"name": "driver", "path": "lib/driver.py", "serves_properties": [], "kind_free_text": "overlay build of the working tree, 16 shard processes, merge, known-finding classification, evidence writer"},
 ]
 NOTES = "Every deciding step is an exhaustive enumeration within stated bounds (see evidence coverage.rule and DESIGN.md). Exit 2 = harness could not be built/run against the tree (no verdict)."
 NA = {}
 TEXT = {
+    "C03": {
+        "engine": "E2 explicit-state product search",
+        "technique": "explicit-state search of all (scanner state, line symbol) pairs + bounded-exhaustive edit/corruption product of seed inputs, every call under recover",
+        "text": "Every (product state, symbol) trace of the C07 search including all malformed symbols, and for 12 seed inputs covering every line kind of both grammars: all single line edits (delete, duplicate, swap, move, splice), all single token corruptions from finite alphabets (numbers, escapes at every symbol position, bracket patterns, addresses), all 256 byte substitutions at every offset of three short seeds, all truncations; each input goes through the resume loop (must terminate within lines+2 calls, with progress) and every snapshot is aggregated at 4 levels and rendered as HTML both ways under recover; growth of allocation and Read calls on n/2n/4n inputs must be linear.",
+        "note": "The 'coverage-guided mutation' part of the quantifier is a sampling technique and is replaced by the bounded edit product. No wall-clock oracle.",
+    },
+    "C06": {
+        "engine": "E1 choice-point explorer",
+        "technique": "exhaustive enumeration of map-iteration permutations (instrumented build) with a bounded number of deviating loops",
+        "text": "An instrumented build derived at check time from the current tree turns every `range <map>` (found by go/types) into an explorer-owned permutation; for 11 inputs chosen for ties and overlapping roots all permutations of every map of <=4 keys with <=2/3 deviating loops are enumerated through scan, path guessing, aggregation at 4 levels and both HTML renderings, and the digest of every observable must be unique. The uninstrumented build repeats each input 300/3000 times in one process as confirmation.",
+        "note": "Map order under the explorer is any order the Go spec allows; a found dependence is real at spec level and confirmed on the plain build where the runtime produces it.",
+    },
+    "C09": {
+        "engine": "scripted environment E3",
+        "technique": "exhaustive enumeration of all delivery schedules of short streams on the real reader in shrunk-buffer builds + conformance runs at the shipped buffer size",
+        "text": "reader.readLine of builds whose buffer array is rewritten to 4 and 8 bytes is driven over every composition of short multi-line streams into chunks (all 2^(n-1) split sets), EOF with/after the last data, zero-length reads at every position (1, 2, 99, and 100 = ErrNoProgress), with the line/rest oracle at every return; ScanSnapshot in a 64-byte build over every uniform chunk size and every chunking with <=2/3 splits must equal the single-read delivery and ground truth; the shipped 16 KiB build is run on lines of 16382..65537 bytes with splits at boundary-adjacent offsets.",
+        "note": "The shrunk-buffer builds differ from the tree only in the array length of reader.buf (rewritten by AST at check time); part (c) binds the result to the real size.",
+    },
+    "C10": {
+        "engine": "scripted environment E3",
+        "technique": "exhaustive fault enumeration: every byte offset x 4 end signals x deliveries",
+        "text": "For 7 (thorough 10) generated streams covering both grammars, every byte offset is the cut point, signalled as EOF after data, EOF with the last data, injected error after data, injected error with the last data, delivered at once and byte by byte, in the real and the 64-byte-buffer build; the whole resume history is checked: no panic, termination, the injected error is what ends the history and is never replaced, EOF gives EOF or a parse error only inside a dump, complete goroutines are present and identical to the uncut parse, at most one partial goroutine, forwarded bytes are a prefix of the uncut forwarding.",
+        "note": "Goroutine text ranges come from the generators; where the prefix rule meets C02's conservation rule the weaker reading is used (a final unterminated line, and <=2 lines that start the dump being cut, are exempt).",
+    },
+    "C11": {
+        "engine": "scripted environment E3",
+        "technique": "exhaustive enumeration of delivery schedules with a monitor at every blocking point",
+        "text": "8 labelled streams x LF/CRLF x all chunkings with <=2/3 split points + byte-at-a-time + line-at-a-time, real and 64-byte buffers; at every Read call (the source would block now) the monitor checks that every complete pass-through line delivered so far, except the last complete one or a held race preamble, has been written, and that no input is requested once the line that ends the current dump has been delivered.",
+        "note": "Pass-through lines are those the reference automaton classifies so on the full stream; a race preamble needs two lines of look-ahead by the format and is exempt while it is the tail of the delivered lines. End-to-end pipe scenarios on the pp binary are part of the CLI harness.",
+    },
+    "C15": {
+        "engine": "bounded-exhaustive product enumerators",
+        "technique": "exhaustive enumeration of all assignments of boundary values to argument slots, relational oracle",
+        "text": "All 8^6 (quick) / 8^7 (thorough) assignments of {5, 512KiB, 512KiB+1, P1, P2, P3, 2^63-2, 2^63-1} to argument slots spread over three goroutines, two frames, top-level and nested aggregate positions, plus 8^5 race reports, parsed with naming on and off; the labelling laws are checked relationally (not by re-running the algorithm).",
+        "note": "Whether a pointer seen once is named is left open, as in the statement.",
+    },
     "C02": {
         "engine": "E2 explicit-state product search",
         "technique": "explicit-state BFS over (real scanner state x reference automaton state) + replay of every explored trace through the public API",
